@@ -125,6 +125,7 @@ func NewBCtx(fn *ssa.Function) *BCtx {
 	c.stored = st
 	c.definitions()
 	c.induction()
+	c.loopUpperInvariants()
 	// phase 2: decide which signed->unsigned conversions are value preserving, then rebuild
 	safe := map[*ssa.Convert]bool{}
 	any := false
@@ -142,6 +143,7 @@ func NewBCtx(fn *ssa.Function) *BCtx {
 		c2 := &BCtx{Fn: fn, classOf: map[ssa.Value]string{}, stored: st, Lower: map[string]int64{}, Upper: map[string]int64{}, parity: map[string]int{}, safeConv: safe}
 		c2.definitions()
 		c2.induction()
+		c2.loopUpperInvariants()
 		return c2
 	}
 	return c
@@ -669,6 +671,33 @@ func (c *BCtx) induction() {
 			}
 		}
 	}
+	// symbolic lower bounds: p = phi(X, p+c...) with all increments non-negative => p >= X
+	for _, phi := range phis {
+		var base ssa.Value
+		ok := true
+		for _, e := range phi.Edges {
+			if e == ssa.Value(phi) {
+				continue
+			}
+			if bo, isb := e.(*ssa.BinOp); isb && bo.Op == token.ADD && bo.X == ssa.Value(phi) {
+				if k, isc := ConstInt(bo.Y); isc && k >= 0 {
+					continue
+				}
+			}
+			if base == nil {
+				base = e
+				continue
+			}
+			ok = false
+		}
+		if ok && base != nil {
+			if _, isc := ConstInt(base); !isc {
+				if l := c.Lin(base); l.OK {
+					c.global = append(c.global, atomL(phi.Name()).Add(l, -1))
+				}
+			}
+		}
+	}
 	// counters with an equality exit: for a constant K that some value is compared with (== / !=),
 	// the greatest set S of integer phis such that every edge of a member is a constant <= K-1,
 	// another member, or member+1 arriving over an edge guarded by (member+1) != K. By induction
@@ -779,7 +808,8 @@ func (c *BCtx) induction() {
 }
 
 // factsFromGuard appends the linear facts implied by a guard; par receives parity facts.
-func (c *BCtx) factsFromGuard(g Guard, facts *[]Lin, par map[string]int, ren map[string]string) {
+func (c *BCtx) factsFromGuard(g Guard, cj *conj, ren map[string]string) {
+	facts, par := &cj.facts, cj.par
 	bo, ok := g.Cond.(*ssa.BinOp)
 	if !ok {
 		return
@@ -841,6 +871,7 @@ func (c *BCtx) factsFromGuard(g Guard, facts *[]Lin, par map[string]int, ren map
 	case token.EQL:
 		*facts = append(*facts, x.Add(y, -1), y.Add(x, -1))
 	case token.NEQ:
+		cj.neq = append(cj.neq, y.Add(x, -1))
 		if y.IsConst() && y.K == 0 && c.nonneg(x) {
 			*facts = append(*facts, x.Add(konst(1), -1))
 		}
@@ -860,6 +891,7 @@ func (c *BCtx) factsFromGuard(g Guard, facts *[]Lin, par map[string]int, ren map
 type conj struct {
 	facts []Lin
 	par   map[string]int
+	neq   []Lin // forms known to be non-zero
 }
 
 // factDNF computes the facts of block b edge-wise. At a join every predecessor (back edges
@@ -880,7 +912,7 @@ func (c *BCtx) factDNF(b *ssa.BasicBlock, depth int) []conj {
 	domConj := func(blk *ssa.BasicBlock, ren map[string]string) conj {
 		cj := conj{par: base(nil)}
 		for _, g := range DomGuards(blk) {
-			c.factsFromGuard(g, &cj.facts, cj.par, ren)
+			c.factsFromGuard(g, &cj, ren)
 		}
 		return cj
 	}
@@ -894,9 +926,9 @@ func (c *BCtx) factDNF(b *ssa.BasicBlock, depth int) []conj {
 			up := rec(p, depth)
 			var out []conj
 			for _, u := range up {
-				cj := conj{facts: append([]Lin{}, u.facts...), par: base(u.par)}
+				cj := conj{facts: append([]Lin{}, u.facts...), par: base(u.par), neq: append([]Lin{}, u.neq...)}
 				if iff, ok := p.Instrs[len(p.Instrs)-1].(*ssa.If); ok && p.Succs[0] != p.Succs[1] {
-					c.factsFromGuard(normGuard(Guard{iff.Cond, p.Succs[0] == blk, p}), &cj.facts, cj.par, nil)
+					c.factsFromGuard(normGuard(Guard{iff.Cond, p.Succs[0] == blk, p}), &cj, nil)
 				}
 				out = append(out, cj)
 			}
@@ -933,9 +965,9 @@ func (c *BCtx) factDNF(b *ssa.BasicBlock, depth int) []conj {
 				ups = rec(p, depth-1)
 			}
 			for _, u := range ups {
-				cj := conj{facts: append([]Lin{}, u.facts...), par: base(u.par)}
+				cj := conj{facts: append([]Lin{}, u.facts...), par: base(u.par), neq: append([]Lin{}, u.neq...)}
 				if iff, ok := p.Instrs[len(p.Instrs)-1].(*ssa.If); ok && p.Succs[0] != p.Succs[1] {
-					c.factsFromGuard(normGuard(Guard{iff.Cond, p.Succs[0] == blk, p}), &cj.facts, cj.par, ren)
+					c.factsFromGuard(normGuard(Guard{iff.Cond, p.Succs[0] == blk, p}), &cj, ren)
 				}
 				for _, ph := range phis {
 					e := c.Lin(ph.Edges[k]).Rename(ren)
@@ -1064,7 +1096,18 @@ func (c *BCtx) proveIn(goal Lin, facts []Lin) bool {
 // ProveAt decides goal >= 0 at block b: it must hold on every way into b.
 func (c *BCtx) ProveAt(b *ssa.BasicBlock, goal Lin) bool {
 	for _, cj := range c.factDNF(b, 3) {
-		if !c.proveIn(goal, c.strengthen(cj)) {
+		facts := c.strengthen(cj)
+		// x != y together with x <= y (or >=) sharpens the inequality by one
+		for _, d := range cj.neq {
+			if c.proveIn(d, facts) {
+				facts = append(facts, d.Add(konst(1), -1))
+			}
+			nd := d.Scale(-1)
+			if c.proveIn(nd, facts) {
+				facts = append(facts, nd.Add(konst(1), -1))
+			}
+		}
+		if !c.proveIn(goal, facts) {
 			return false
 		}
 	}
@@ -1215,4 +1258,86 @@ func fillToCapacity(ph *ssa.Phi) *ssa.MakeSlice {
 		}
 	}
 	return nil
+}
+
+// loopUpperInvariants: for p = phi(X, p+1) whose back edge comes from a block dominated by the true
+// edge of `p < N` (N defined outside the loop), p <= N holds everywhere provided X <= N holds on
+// the entry edge (proved with the facts of the entry predecessor). Run twice so that an inner
+// loop's base may use an outer invariant.
+func (c *BCtx) loopUpperInvariants() {
+	for round := 0; round < 2; round++ {
+		for _, b := range c.Fn.Blocks {
+			for _, in := range b.Instrs {
+				phi, ok := in.(*ssa.Phi)
+				if !ok || !isIntType(phi.Type()) || len(phi.Edges) != 2 {
+					continue
+				}
+				var base ssa.Value
+				var entry, latch *ssa.BasicBlock
+				for k, e := range phi.Edges {
+					if bo, isb := e.(*ssa.BinOp); isb && bo.Op == token.ADD && bo.X == ssa.Value(phi) {
+						if one, isc := ConstInt(bo.Y); isc && one == 1 {
+							latch = b.Preds[k]
+							continue
+						}
+					}
+					base, entry = e, b.Preds[k]
+				}
+				if base == nil || latch == nil || entry == nil {
+					continue
+				}
+				for _, g := range DomGuards(latch) {
+					x, op, y, cok := CmpGuard(g)
+					if !cok || op != token.LSS || x != ssa.Value(phi) {
+						continue
+					}
+					// N must not change inside the loop: defined in a block that dominates the header
+					if yi, isInstr := y.(ssa.Instruction); isInstr && !(yi.Block().Dominates(b) && yi.Block() != b) {
+						if _, isCall := y.(*ssa.Call); !isCall || !strings.HasPrefix(CalleeName(y.(*ssa.Call)), "builtin.len") {
+							continue
+						}
+					}
+					N := c.Lin(y)
+					goal := N.Add(c.Lin(base), -1)
+					proved := false
+					// facts on the entry edge
+					for _, dummy := range []int{0} {
+						_ = dummy
+						cjs := c.factDNF(entry, 3)
+						all := true
+						for _, cj := range cjs {
+							if iff, isif := entry.Instrs[len(entry.Instrs)-1].(*ssa.If); isif && entry.Succs[0] != entry.Succs[1] {
+								c.factsFromGuard(normGuard(Guard{iff.Cond, entry.Succs[0] == b, entry}), &cj, nil)
+							}
+							facts := c.strengthen(cj)
+							for _, d := range cj.neq {
+								if c.proveIn(d, facts) {
+									facts = append(facts, d.Add(konst(1), -1))
+								}
+								if nd := d.Scale(-1); c.proveIn(nd, facts) {
+									facts = append(facts, nd.Add(konst(1), -1))
+								}
+							}
+							if !c.proveIn(goal, facts) {
+								all = false
+							}
+						}
+						proved = all
+					}
+					if proved {
+						f := N.Add(atomL(phi.Name()), -1)
+						dup := false
+						for _, gq := range c.global {
+							if gq.String() == f.String() {
+								dup = true
+							}
+						}
+						if !dup {
+							c.global = append(c.global, f)
+						}
+					}
+				}
+			}
+		}
+	}
 }
